@@ -34,6 +34,7 @@ Definition tpub_eqb (a b : tpub) : bool :=
 Definition mres_eqb (a b : mres) : bool :=
   match a, b with
   | MErr, MErr | MUnrec, MUnrec | MUnit, MUnit => true
+  | MCount a, MCount b => (a =? b)%N
   | MUpd o e s r c, MUpd o' e' s' r' c' =>
       (o =? o')%N && String.eqb e e' && Bool.eqb s s' && String.eqb r r'
       && opt_eqb (fun x y => (fst x =? fst y)%N && String.eqb (snd x) (snd y)) c c'
@@ -65,12 +66,13 @@ Definition map_wire (cf : mcfg) (o : mop) : list (list string) :=
         else [["hget"; k_state ch; key]; ["hmget"; k_meta ch; "s"; "e"]]
       else if (limit =? 0)%Z then
         [("EVAL:map_broker_stream_read" :: "2" :: k_stream ch :: k_meta ch :: stream_read_args cf None 0 false nonce)]
-      else if mc_ordered cf then []
+      else if mc_ordered cf then []   (* the pages of an ordered read depend on the replies: not compared (the driver logs none) *)
       else [["EVAL:map_broker_read_unordered"; "4"; k_state ch; k_expire ch; k_meta ch; k_smeta ch;
              "0"; zdec (if (limit <? 0)%Z then 0%Z else limit); nonce; millis (mc_mttl cf);
              if (0 <? mc_mttl cf)%Z then millis (mc_mttl cf) else "0"; if is_ephemeral cf then "1" else "0"]]
   | MClear ch => [["del"; k_stream ch; k_meta ch; k_state ch; k_order ch; k_expire ch; k_smeta ch]; ["zrem"; k_cleanup; ch]]
   | MTick _ => []
+  | MStats ch => [["EVAL:map_broker_stats"; "1"; k_state ch]]
   | MCleanup _ _ => []     (* the cleanup cycle's commands depend on the replies: not compared (the driver logs none) *)
   end.
 
